@@ -27,6 +27,7 @@ import (
 type LoopSpec struct {
 	Unroll     int // 0 = not unrolled
 	Invariants []*Clause
+	Steps      []*Clause // asserted at every back edge only (may name locals of the body)
 	Decreases  *Clause
 	Modifies   []*Clause
 }
@@ -398,6 +399,12 @@ func ParseContractFile(path, pkg string) (*ContractFile, error) {
 						return nil, err
 					}
 					ls.Invariants = append(ls.Invariants, cl)
+				case strings.HasPrefix(rest, "step"):
+					cl, err := mk(strings.TrimSpace(rest[4:]), c.line)
+					if err != nil {
+						return nil, err
+					}
+					ls.Steps = append(ls.Steps, cl)
 				case strings.HasPrefix(rest, "decreases"):
 					cl, err := mk(strings.TrimSpace(rest[9:]), c.line)
 					if err != nil {
